@@ -520,6 +520,11 @@ func (c *Collection) DropIndex(name string) ([]string, error) {
 
 	// drop single index
 	if name != "" {
+		// the default index cannot be dropped
+		if name == "_id_" {
+			return nil, fmt.Errorf("cannot drop index %q", name)
+		}
+
 		// check existence
 		if _, ok := c.Indexes[name]; !ok {
 			return nil, fmt.Errorf("missing index %q", name)
